@@ -75,9 +75,19 @@ class ProxyFrame:
         self.log.append(("column", str(item), None))  # a whole column at once
         return self.df[item]
 
+    def __array__(self, *a, **k):
+        self.log.append(("column", "__array__", None))   # the whole table converted at once
+        return self.df.__array__(*a, **k)
+
+    def __iter__(self):
+        return iter(self.df)                              # column names
+
+    # attributes that say something about the table without reading rows
+    HARMLESS = ("columns", "dtypes", "shape", "index", "ndim", "size", "empty", "keys", "attrs", "__class__", "__dict__")
+
     def __getattr__(self, name):
-        if name in ("iloc", "loc", "values", "to_numpy", "itertuples", "iterrows"):
-            self.log.append(("other", name, None))   # access paths whose extent the proxy cannot see
+        if name not in self.HARMLESS and not (name.startswith("__") and name.endswith("__") and name != "__array_interface__"):
+            self.log.append(("other", name, None))   # an access path whose extent the proxy cannot see
         return getattr(self.df, name)
 
 
@@ -95,8 +105,19 @@ class ProxyDataset:
             self.log.append(("other", repr(item), None))
         return self.ds[item]
 
+    def __array__(self, *a, **k):
+        self.log.append(("column", "__array__", None))   # the whole dataset read at once (np.asarray / atleast_1d ...)
+        return self.ds.__array__(*a, **k)
+
+    def __iter__(self):
+        self.log.append(("other", "__iter__", None))
+        return iter(self.ds)
+
+    HARMLESS = ("shape", "dtype", "ndim", "size", "name", "attrs", "chunks", "maxshape", "nbytes", "len", "file", "parent",
+                "id", "compression", "fillvalue", "is_virtual", "__class__", "__dict__")
+
     def __getattr__(self, name):
-        if name in ("read_direct", "astype", "fields", "iter_chunks"):
+        if name not in self.HARMLESS and not (name.startswith("__") and name.endswith("__") and name != "__array_interface__"):
             self.log.append(("other", name, None))
         return getattr(self.ds, name)
 
